@@ -350,7 +350,7 @@ theorem step_inboundData_quiet (a : Agent) (now la src len : Nat) (sl : Bool) :
     · exact QuietO.refl a
     · exact inboundData_quiet _ _ _ _ _
 
-theorem step_read_quiet (a : Agent) : QuietO a (step a .read) := by
+theorem step_read_quiet (a : Agent) (cap : Nat) : QuietO a (step a (.read cap)) := by
   simp only [step]
   repeat' split
   all_goals first
@@ -468,7 +468,7 @@ theorem step_ok (a : Agent) (e : Ev) (hi : Inv a) : StepOK a e (step a e) := by
     | inboundData now la src len sl => exact StepOK.of_quiet hi (step_inboundData_quiet a now la src len sl)
     | write now len sl => exact StepOK.of_quiet hi (write_quiet a now len sl)
     | writeToPair now id len sl => exact StepOK.of_quiet hi (writeToPair_quiet a now id len sl)
-    | read => exact StepOK.of_quiet hi (step_read_quiet a)
+    | read cap => exact StepOK.of_quiet hi (step_read_quiet a cap)
     | renominate now la ri v => exact StepOK.of_quiet hi (renominate_quiet a now la ri v)
     | restart now u p => exact step_restart a now u p hi hc
     | close => exact step_close a hi hc
